@@ -45,5 +45,11 @@ CHECKS = {
                 text="Held on the generated inputs: every member of the statement's invalid classes was refused without creating a member or moving the collection tag; every accepted "
                      "valid body was served property-for-property equal (own parser) and re-uploading the served bytes changed neither ETag, sync-token nor commit count.",
                 note="Trusted: vf/icl.py as definition of 'parseable'; classes outside the statement (broken nesting repaired by the lenient parser) are judged by observable consequences only."),
+    "C15": dict(level="exploration", design="DESIGN.md section 4 C15",
+                technique="runtime monitoring: reference model of acknowledged property values vs PROPFIND read-back after every operation (set/remove/restart/member write) over a metacharacter value grammar, both metadata back ends, both front ends",
+                text="Held on the generated operations except for the recorded known finding (values with inner line feeds on the .xandikos back end): every value whose set was "
+                     "reported 200 by PROPPATCH / extended MKCOL / MKCALENDAR read back identically after every later operation and restart; no operation changed another collection's "
+                     "properties or any member.",
+                note="Trusted: harness XML escaping/parsing; a set is successful iff its propstat is 200; ';' not generated for the git-config back end (as the property says)."),
 }
 NOT_APPLICABLE = {}
